@@ -9,6 +9,7 @@ import (
 
 	"github.com/ah-naf/borno/ast"
 	"github.com/ah-naf/borno/environment"
+	"github.com/ah-naf/borno/parser"
 	"github.com/ah-naf/borno/token"
 	"github.com/ah-naf/borno/utils"
 	"golang.org/x/text/unicode/norm"
@@ -118,7 +119,7 @@ func VH_printNested(n int, inObject int) {
 	utils.HadError, utils.HadRuntimeError = false, false
 	var node ast.Expr
 	if inObject == 1 {
-		node = &ast.ObjectLiteral{Properties: map[string]ast.Expr{"k0": lit(stringLiteralValue(txt), 2)}}
+		node = objectLiteralVia(env, lit(stringLiteralValue(txt), 2))
 	} else {
 		node = &ast.ArrayLiteral{Elements: []ast.Expr{lit(stringLiteralValue(txt), 2), lit(7.0, 2)}, Line: 2}
 	}
@@ -254,7 +255,7 @@ func VH_rel(class int, n int, which int) {
 		case 7: // argument of a math built-in
 			r[side], _ = in.eval(callNamed(mathNames[0], 4, lit(v, 4)), env, false)
 		case 8: // stored in an object property and read back
-			ov, _ := in.eval(&ast.ObjectLiteral{Properties: map[string]ast.Expr{"k0": lit(v, 4)}}, env, false)
+			ov, _ := in.eval(objectLiteralVia(env, lit(v, 4)), env, false)
 			r[side], _ = in.eval(&ast.PropertyAccess{Object: lit(ov, 4), Property: tok(token.IDENTIFIER, "k0", 4), Line: 4}, env, false)
 			in.eval(&ast.PrintStatement{Expression: lit(ov, 4)}, env, false)
 		case 9: // key argument of the delete built-in
@@ -285,4 +286,27 @@ func VH_rel(class int, n int, which int) {
 			verifAssert("same-output-for-both-representations", out[0] == out[1])
 		}
 	}
+}
+
+// objectLiteralVia: the node the real parser builds for `({ k0 : v0 })`, with v0 bound to
+// the value of e in env (so that the harness does not depend on how the tree stores the
+// properties of an object literal).
+func objectLiteralVia(env *environment.Environment, e *ast.Literal) ast.Expr {
+	env.Values["v0"] = e.Value
+	toks := []token.Token{tk(token.LEFT_PAREN, "(", nil, 2), tk(token.LEFT_BRACE, "{", nil, 2), tk(token.IDENTIFIER, "k0", nil, 2), tk(token.COLON, ":", nil, 2),
+		tk(token.IDENTIFIER, "v0", nil, 2), tk(token.RIGHT_BRACE, "}", nil, 2), tk(token.RIGHT_PAREN, ")", nil, 2), tk(token.SEMICOLON, ";", nil, 2), tk(token.EOF, "", nil, 2)}
+	saved := utils.HadError
+	stmts, err := parser.NewParser(toks).Parse()
+	utils.HadError = saved
+	if err != nil {
+		verifAssume(false)
+	}
+	if len(stmts) != 1 {
+		verifAssume(false)
+	}
+	es, ok := stmts[0].(*ast.ExpressionStatement)
+	if !ok {
+		verifAssume(false)
+	}
+	return es.Expression
 }
